@@ -6,7 +6,7 @@ EXTENDS Fields, Json
 CONSTANT Full     \* TRUE: complete domain of Ipv6FlowLabel as well
 
 Cases ==
-  UNION {{<<t, <<>>, v>> : v \in {x \in ((IF Bits(t) <= 13 \/ Full THEN 0..(2 ^ Bits(t) + 2)
+  UNION {{<<t, <<>>, v>> : v \in {x \in ((IF Bits(t) <= 13 THEN 0..(2 ^ Bits(t) + 2)
                                             ELSE {0, 1, 2 ^ 19, 2 ^ 20 - 2, 2 ^ 20 - 1, 2 ^ 20, 2 ^ 20 + 1, 2 ^ 24, Huge} \cup {k * 4099 : k \in 0..255})
                                            \cup {ArgMax(t)}) : x <= ArgMax(t)}} : t \in NewTypes}
   \cup UNION {{<<"ipv4.set_payload_len", <<o>>, v>> : v \in Probe(U16MAX - 20 - o)} : o \in {0, 4, 40}}
@@ -27,7 +27,9 @@ Cases ==
   \cup UNION {{<<"ipv4.payload_len", <<o>>, v>> : v \in {0, 1, 19, 20, 21, 59, 60, 61, 65535} \cup Around(20 + o)} : o \in {0, 4, 40}}
 
 VARIABLES api, ctx, v
-Init == \E c \in Cases : api = c[1] /\ ctx = c[2] /\ v = c[3]
+\* (the complete 2^20 value domain of the flow label is an interval, not a materialised set: TLC limits sets to 10^6 elements)
+Init == \/ \E c \in Cases : api = c[1] /\ ctx = c[2] /\ v = c[3]
+        \/ Full /\ api = "Ipv6FlowLabel" /\ ctx = <<>> /\ v \in 0..(2 ^ 20 + 2)
 Next == FALSE /\ UNCHANGED <<api, ctx, v>>
 Spec == Init /\ [][Next]_<<api, ctx, v>>
 
